@@ -406,7 +406,8 @@ Definition print_doc (d : doc) : bytes :=
   (if d_xssi d then xssi_prefix else []) ++ print_json (json_of_wrapper (d_body d)).
 Definition to_response (d : doc) : response := d_body d.
 
-(* ---- well-formed documents: valid UTF-8, integers in range, extension keys
+(* ---- well-formed documents: valid UTF-8, integers in range (u32 day counts,
+        u64 sizes, u64 / negative i64 inside extension values), extension keys
         that do not collide with protocol keys, extension values that are
         printable JSON within the nesting limit ---- *)
 Fixpoint wf_json (j : json) : bool :=
@@ -419,6 +420,16 @@ Fixpoint wf_json (j : json) : bool :=
   | JObj kvs => forallb (fun x => snd (fst x) && utf8_valid (fst (fst x)) && wf_json (snd x)) kvs
   end.
 
+(* integers that serde_json::Value stores exactly (u64, or negative i64); anything
+   else in an extension attribute becomes an f64 in the real map *)
+Fixpoint ints_exact (j : json) : bool :=
+  match j with
+  | JInt neg n => if neg then (1 <=? n) && (n <=? 2 ^ 63) else n <? 2 ^ 64
+  | JArr l => forallb ints_exact l
+  | JObj kvs => forallb (fun x => ints_exact (snd x)) kvs
+  | _ => true
+  end.
+
 Definition wf_str (s : bytes) : bool := utf8_valid s.
 Definition wf_ostr (o : option bytes) : bool := match o with Some s => utf8_valid s | None => true end.
 Definition wf_ouint (bound : N) (o : option N) : bool := match o with Some n => n <? bound | None => true end.
@@ -429,7 +440,7 @@ Definition wf_status (s : omaha_status) : bool :=
   end.
 Definition wf_extras (names : list bytes) (lvl : N) (ex : jextras) : bool :=
   forallb (fun e => utf8_valid (fst e) && negb (mem_key (fst e) names) && wf_json (snd e)
-                    && (lvl + depth (snd e) <=? max_open)) ex.
+                    && ints_exact (snd e) && (lvl + depth (snd e) <=? max_open)) ex.
 Definition wf_action (a : raction) : bool :=
   wf_ostr (ac_event a) && wf_ostr (ac_run a) && wf_extras action_names action_lvl (ac_extra a).
 Definition wf_package (p : rpackage) : bool :=
